@@ -451,6 +451,9 @@ class Executor:
                 return st.frames[fi][n]
             if v.kind == "cell":
                 return st.cells[v.target]
+            if v.kind == "cellfield":
+                cell, k = v.target
+                return st.cells[cell].fields[k]
             return v.target
         if isinstance(v, Opaque):
             return v.child("deref", v.ty.lstrip("&").replace("mut ", "", 1).strip() or "?")
@@ -485,6 +488,14 @@ class Executor:
             if isinstance(r, Ref) and r.kind == "cell":
                 st.cells[r.target] = val
                 st.events.append(Event("store", [r, val], None, len(st.pc)))
+                return
+            if isinstance(r, Ref) and r.kind == "cellfield":
+                cell, k = r.target
+                cur = st.cells[cell]
+                f = dict(cur.fields)
+                f[k] = val
+                st.cells[cell] = Agg(cur.ty, cur.variant, f, cur.disc)
+                st.events.append(Event("store-field", [r, val], None, len(st.pc)))
                 return
             raise Unsupported("store through %r" % (r,))
         if len(steps) == 2 and steps[1][0] == "field":
@@ -611,6 +622,10 @@ class Executor:
             if steps[-1][0] == "deref" and len(steps) == 2:
                 # reborrow &(*_x)
                 return st.frames[-1][steps[0][1]]
+            if len(steps) == 3 and steps[1][0] == "deref" and steps[2][0] == "field":
+                base = st.frames[-1].get(steps[0][1])
+                if isinstance(base, Ref) and base.kind == "cell":
+                    return Ref("cellfield", (base.target, steps[2][1]))
             return Ref("val", self.read_place(st, rest))
         if t.startswith(("copy ", "move ", "const ", "no_retag ")):
             return self.operand(st, t, dest_ty)
